@@ -2841,20 +2841,51 @@ mod incr {
     /// the consumer side of the protocol (remote.rs process_file_context, `fc.last_lcs_w_refresh_index`)
     #[derive(Clone, Debug, Default, PartialEq, Eq, PartialOrd, Ord)]
     pub struct Follower {
-        pub last: u32,
+        /// the highest refresh index seen so far; None = nothing seen yet.  remote.rs encodes "nothing seen" as 0 because the
+        /// stage's indices start at 1; which numbers the stage uses is not part of any contract (a consistent renumbering of
+        /// writer and reader keeps C13 true), so the follower here depends on the ORDER of the indices only.
+        pub last: Option<u32>,
         pub tbl: BTreeMap<u32, Ent>,
     }
     impl Follower {
         pub fn poll(&mut self, view: &[Ent]) {
             let mut new_last = self.last;
             for e in view {
-                if e.5 > self.last {
-                    new_last = new_last.max(e.5);
+                if self.last.map_or(true, |l| e.5 > l) {
+                    new_last = Some(new_last.map_or(e.5, |n| n.max(e.5)));
                     self.tbl.insert(e.0, *e);
                 }
             }
             self.last = new_last;
         }
+    }
+    /// refresh indices are compared by RANK among the indices observed in the run (DESIGN section 2: values of internal
+    /// counters are compared by rank on both sides): the k-th smallest index becomes k (1-based), in every view and in the final table
+    pub fn rank_refresh_indices(views: &mut [(u32, Vec<Ent>)], fin: &mut [Ent]) -> Vec<u32> {
+        let mut all: BTreeSet<u32> = BTreeSet::new();
+        for (_, v) in views.iter() {
+            for e in v.iter() {
+                all.insert(e.5);
+            }
+        }
+        for e in fin.iter() {
+            all.insert(e.5);
+        }
+        let known: Vec<u32> = all.into_iter().collect();
+        for (_, v) in views.iter_mut() {
+            for e in v.iter_mut() {
+                e.5 = rank_of_refresh_index(&known, e.5);
+            }
+        }
+        for e in fin.iter_mut() {
+            e.5 = rank_of_refresh_index(&known, e.5);
+        }
+        known
+    }
+    /// rank (1-based) of a raw refresh index among the indices the stage-alone run showed; an index that run did not show
+    /// (a table state between two sends, seen by a threaded look only) gets the rank of the largest known index below it
+    pub fn rank_of_refresh_index(known: &[u32], raw: u32) -> u32 {
+        known.partition_point(|k| *k <= raw) as u32
     }
 
     // ---------------------------------------------------------------- generator
@@ -3172,7 +3203,7 @@ mod incr {
 
     // ---------------------------------------------------------------- deterministic part
     /// the real stage alone; the table as readers see it at every outflow call (message index, view), and at the end
-    pub fn run_views(t: &Trace) -> Result<(Vec<(u32, Vec<Ent>)>, Vec<Ent>, Vec<(u32, usize)>), String> {
+    pub fn run_views(t: &Trace) -> Result<(Vec<(u32, Vec<Ent>)>, Vec<Ent>, Vec<(u32, usize)>, Vec<u32>), String> {
         let msgs = build(t);
         catch(move || {
             let (lcs_r, lcs_w) = evmap::Options::default().with_hasher(Hasher::default()).construct::<LifecycleId, LifecycleItem>();
@@ -3189,9 +3220,11 @@ mod incr {
                 Ok(())
             });
             note_bag_defects(&lcs_r, &mut bags.borrow_mut());
-            let fin = read_table(&lcs_r);
+            let mut fin = read_table(&lcs_r);
             drop(w);
-            (views.into_inner(), fin, bags.into_inner())
+            let mut views = views.into_inner();
+            let known = rank_refresh_indices(&mut views, &mut fin);
+            (views, fin, bags.into_inner(), known)
         })
     }
 
@@ -3395,12 +3428,12 @@ mod incr {
         let mut classes = vec![];
         let mut tags = vec!["incr_follower".to_string(), format!("incr_family_{}", t.family), format!("incr_stride_{}", if t.stride == 1 { "1" } else if t.stride < 100_000 { "sub_100k" } else { "over_100k" })];
         tags.push(if t.names.is_empty() { "incr_names_dltgen".into() } else { "incr_names_permuted".into() });
-        let (views, fin, bags) = match run_views(t) {
+        let (views, fin, bags, known_idx) = match run_views(t) {
             Ok(x) => x,
             Err(e) => {
                 tags.push("stage_panicked".into());
                 verdict = fail("incr_stage_runs", e);
-                (vec![], vec![], vec![])
+                (vec![], vec![], vec![], vec![])
             }
         };
         // every key of the table has exactly one value, whenever a reader looks (remote.rs: `b.get_one().unwrap()`)
@@ -3564,7 +3597,15 @@ mod incr {
         let mut thr_obs = vec![];
         let mut looks_total = 0usize;
         for r in &runs {
-            let o = run_threaded(t, r, hang);
+            let mut o = run_threaded(t, r, hang);
+            // the threaded follower worked on the raw indices (order-based protocol); for the comparison with the stage-alone run
+            // and with the model the indices are ranked like that run's
+            for e in o.fin.iter_mut() {
+                e.5 = rank_of_refresh_index(&known_idx, e.5);
+            }
+            for e in o.follower.tbl.values_mut() {
+                e.5 = rank_of_refresh_index(&known_idx, e.5);
+            }
             looks_total += o.looks;
             n_bag_defects += o.bags.len();
             if let (Verdict::Ok, Some(d)) = (&verdict, o.bags.first()) {
